@@ -122,6 +122,11 @@ def reqHits (m : LitMap (Nat × Glob)) (c : Candidate) : List Nat :=
 def reHits (t : List (Nat × Glob)) (c : Candidate) : List Nat :=
   (t.filter fun e => e.2.isMatch c.path).map (·.1)
 
+/-- the order of `GlobSet.strats` (source names; the answer is sorted afterwards, so `C12_set` does not depend on
+this order — it is anchored only so that a reshuffle is noticed) -/
+def stratsOrder : List String :=
+  ["Extension", "BasenameLiteral", "Literal", "Suffix", "Prefix", "RequiredExtension", "Regex"]
+
 /-- the pushes of the seven `matches_into` calls, in the order of `strats`
 (Extension, BasenameLiteral, Literal, Suffix, Prefix, RequiredExtension, Regex) -/
 def GlobSet.pushes (s : GlobSet) (c : Candidate) : List Nat :=
